@@ -213,7 +213,8 @@ CHILD_OPTS = [
 def fam_pair(quick):
     for kind in RELKINDS:
         for pk1 in PKS:
-            pk2s = PKS + (('comprel',) if kind in ('o2o-ro', 'o2m-r') else ())
+            # 'comprel': the reference is one part of a composite primary key; 'pkrel': the reference IS the primary key
+            pk2s = PKS + (('comprel',) if kind in ('o2o-ro', 'o2m-r') else ()) + (('pkrel',) if kind == 'o2o-ro' else ())
             for pk2 in pk2s:
                 cascades = (None,) if kind == 'm2m' else (None, True, False)
                 for cascade in cascades:
@@ -222,9 +223,11 @@ def fam_pair(quick):
                         if quick and cname not in ('plain', 'unique', 'in-composite-key') and (pk1, pk2) not in (('auto', 'auto'), ('comp', 'comp')):
                             continue
                         d = Diagram(family='pair', rel=kind, pk1=pk1, pk2=pk2, cascade=cascade, child=cname)
-                        d.ent('Alpha', pk1); e2 = d.ent('Beta', pk2)
-                        d.rel(kind, 'Alpha', 'betas', 'Beta', 'alpha', cascade=cascade, child_opts=copts)
+                        if pk2 == 'pkrel' and cname != 'plain': continue
+                        d.ent('Alpha', pk1); e2 = d.ent('Beta', 'auto' if pk2 == 'pkrel' else pk2)
+                        p_, c_ = d.rel(kind, 'Alpha', 'betas', 'Beta', 'alpha', cascade=cascade, child_opts=copts)
                         if pk2 == 'comprel': make_comprel(e2, 'alpha')
+                        if pk2 == 'pkrel': c_['cls'] = 'PrimaryKey'
                         if extra:
                             e2['attrs'].append(attr('x', 'Required', 'int'))
                             (e2['keys'] if extra == 'key' else e2['indexes']).append(['alpha', 'x'])
